@@ -725,3 +725,70 @@ func genCHoleIsland(r *rand.Rand, g *Grid) ([][]Pt, bool) {
 	}
 	return poly, true
 }
+
+// genThickCIsland: a square shell of 30 pixels, a C-shaped hole with a band three pixels thick whose mouth (the neck of
+// material that joins the island inside the C to the rest) is narrower than half a pixel and closes when snapped, so that
+// the island becomes a polygon of its own inside the hole, and a square hole of eight pixels inside that island.  The
+// square hole lies inside the shell AND inside the island: it must go to the island, the SMALLER of the two, which
+// matchInnersToPolygons decides by the area order of sortPolyIdxsByOuterAreaDesc (finding F23: geomhelp.Shoelace lost
+// areas of a few pixels in the rounding of raw-ordinate products far from the origin of the CRS).  (bx, by) is the pixel
+// of the shell's lower left corner at the deepest level.
+func genThickCIsland(r *rand.Rand, g *Grid, bx, by int64) ([][]Pt, bool) {
+	P := g.Res
+	if P < 64 {
+		return nil, false
+	}
+	X := func(px int64, frac int64) int64 { return g.Ext[0] + (bx+px)*P + P*frac/64 }
+	Y := func(px int64, frac int64) int64 { return g.Ext[1] + (by+px)*P + P*frac/64 }
+	f := 8 + r.Int63n(48) // where in their pixels the corners lie
+	o0, o1 := int64(4), int64(26)
+	i0, i1 := o0+3, o1-3
+	mouth := 16 + r.Int63n(12) // < 1/2 pixel, in 1/64
+	mc := 14 + r.Int63n(3)     // pixel column of the neck
+	mf := 4 + r.Int63n(60-mouth)
+	mx0, mx1 := X(mc, mf), X(mc, mf+mouth)
+	shell := []Pt{{X(0, f), Y(0, f)}, {X(30, f), Y(0, f)}, {X(30, f), Y(30, f)}, {X(0, f), Y(30, f)}}
+	hole := []Pt{{mx1, Y(o1, f)}, {X(o1, f), Y(o1, f)}, {X(o1, f), Y(o0, f)}, {X(o0, f), Y(o0, f)}, {X(o0, f), Y(o1, f)}, {mx0, Y(o1, f)},
+		{mx0, Y(i1, f)}, {X(i0, f), Y(i1, f)}, {X(i0, f), Y(i0, f)}, {X(i1, f), Y(i0, f)}, {X(i1, f), Y(i1, f)}, {mx1, Y(i1, f)}}
+	sq := []Pt{{X(11, f), Y(11, f)}, {X(11, f), Y(19, f)}, {X(19, f), Y(19, f)}, {X(19, f), Y(11, f)}}
+	poly := [][]Pt{shell, hole, sq}
+	for _, ring := range poly {
+		for k := range ring {
+			x, ok1 := fixRoundTrip(ring[k][0])
+			y, ok2 := fixRoundTrip(ring[k][1])
+			if !ok1 || !ok2 {
+				return nil, false
+			}
+			ring[k] = Pt{x, y}
+		}
+	}
+	if !g.inGrid(poly) || !validPolygon(poly) {
+		return nil, false
+	}
+	return poly, true
+}
+
+// deepNestedCase: genThickCIsland on WebMercatorQuad at tile matrix 18-20, tens of thousands of kilometres from the
+// origin of the CRS, where the square of an ordinate has a rounding unit larger than the area of the rings
+func deepNestedCase(r *rand.Rand) (*Grid, [][]Pt, int, bool) {
+	id := []int{20, 20, 19, 18}[r.Intn(4)]
+	g, err := embeddedGrid("WebMercatorQuad", id)
+	if err != nil || g.Deep > 32 {
+		return nil, nil, 0, false
+	}
+	size := int64(1) << g.Deep
+	// anchors as fractions of the grid: (0.955, 0.908) is the witness of F23 (x 1.82e7, y 1.64e7); the others lie in the
+	// other three outer corners and near the middle of the right and top sides
+	fr := [][2]float64{{0.955, 0.908}, {0.955, 0.908}, {0.93, 0.07}, {0.06, 0.94}, {0.05, 0.06}, {0.97, 0.52}, {0.48, 0.96}}[r.Intn(7)]
+	bx := int64(fr[0]*float64(size)) + r.Int63n(200000)
+	by := int64(fr[1]*float64(size)) + r.Int63n(200000)
+	if bx+40 >= size || by+40 >= size {
+		return nil, nil, 0, false
+	}
+	for try := 0; try < 5; try++ {
+		if poly, ok := genThickCIsland(r, g, bx+int64(try), by); ok {
+			return g, poly, id, true
+		}
+	}
+	return nil, nil, 0, false
+}
